@@ -146,6 +146,35 @@ where
     /// ```
     pub fn find(&self, prefix: P) -> Option<TrieView<'a, P, T>> {
         let mut idx = self.loc.idx();
+        // The search is relative to this view. First handle all queries that are not strictly
+        // below the position of the view.
+        let view_p = self.prefix();
+        if prefix.contains(view_p) {
+            // everything in this view is covered by `prefix`.
+            let loc = match &self.loc {
+                ViewLoc::Node(idx) => ViewLoc::Node(*idx),
+                ViewLoc::Virtual(p, idx) => {
+                    ViewLoc::Virtual(P::from_repr_len(p.repr(), p.prefix_len()), *idx)
+                }
+            };
+            return Some(Self {
+                table: self.table,
+                loc,
+            });
+        }
+        if !view_p.contains(&prefix) {
+            return None;
+        }
+        if let ViewLoc::Virtual(_, _) = &self.loc {
+            // `prefix` is strictly below the virtual position. Compare it with the only node.
+            let node_p = &self.table[idx].prefix;
+            if !node_p.contains(&prefix) {
+                return prefix.contains(node_p).then(|| Self {
+                    table: self.table,
+                    loc: ViewLoc::Virtual(prefix, idx),
+                });
+            }
+        }
         loop {
             match self.table.get_direction_for_insert(idx, &prefix) {
                 DirectionForInsert::Enter { next, .. } => {
@@ -694,6 +723,26 @@ where
         // is still not covered by any other view), while dropping `self`.
 
         let mut idx = self.loc.idx();
+        // The search is relative to this view. First handle all queries that are not strictly
+        // below the position of the view.
+        if prefix.contains(self.prefix()) {
+            // everything in this view is covered by `prefix`.
+            return Ok(self);
+        }
+        if !self.prefix().contains(&prefix) {
+            return Err(self);
+        }
+        if let ViewLoc::Virtual(_, _) = &self.loc {
+            // `prefix` is strictly below the virtual position. Compare it with the only node.
+            let node_p = &self.table[idx].prefix;
+            if !node_p.contains(&prefix) {
+                return if prefix.contains(node_p) {
+                    unsafe { Ok(Self::new(self.table, ViewLoc::Virtual(prefix, idx))) }
+                } else {
+                    Err(self)
+                };
+            }
+        }
         loop {
             match self.table.get_direction_for_insert(idx, &prefix) {
                 DirectionForInsert::Enter { next, .. } => {
